@@ -70,6 +70,10 @@ pub fn apply_tla<H: BuildHasher>(args: &HashMap<IStr, TlaArg, H>, val: Val) -> R
 			|| {
 				let mut names = Vec::with_capacity(args.len());
 				let mut values = Vec::with_capacity(args.len());
+				// The map is keyed by interned strings, whose hash is their address: go through
+				// the arguments in name order so that the reported error does not depend on it
+				let mut args = args.iter().collect::<Vec<_>>();
+				args.sort_by(|a, b| a.0.as_str().cmp(b.0.as_str()));
 				for (name, value) in args {
 					names.push(name.clone());
 					values.push(value.evaluate()?);
